@@ -287,6 +287,11 @@ fn run_entry_chain_inner<K: El, V: El>(m: &mut M<K, V>, r: &mut BTreeMap<u32, u3
     let ms = harness(|| decode(code));
     let mut obs: u64 = 0;
     let hb = HB { kind: m.hasher().kind, seed: m.hasher().seed };
+    // which key object is stored now / which one the entry is given (identity-observable key types)
+    // (found by iteration, not by lookup: the work monitors count every hash and comparison of the call)
+    let pre_obj: Option<u64> = if K::IDENT { m.iter().find(|(k, _)| k.id() == lk).map(|(k, _)| k.obj()) } else { None };
+    let mut entry_obj: u64 = 0;
+    let mut expect_stored: Option<u64> = None;
     let mut st: St<'_, K, V> = if raw {
         let b = m.raw_entry_mut();
         let kk = harness(|| K::mk(key, true));
@@ -311,7 +316,9 @@ fn run_entry_chain_inner<K: El, V: El>(m: &mut M<K, V>, r: &mut BTreeMap<u32, u3
         harness(|| drop(kk));
         St::RE(e)
     } else {
-        St::E(m.entry(harness(|| K::mk(key, true))))
+        let ek = harness(|| K::mk(key, true));
+        entry_obj = ek.obj();
+        St::E(m.entry(ek))
     };
     // initial coherence: Occupied <=> present
     match &st {
@@ -504,12 +511,21 @@ fn run_entry_chain_inner<K: El, V: El>(m: &mut M<K, V>, r: &mut BTreeMap<u32, u3
                 let v = nv(r.0, lk);
                 let (k, old) = o.replace_entry(harness(|| V::mk(v, false)));
                 vcheck_eq!("occ.replace_entry", Some((k.id(), old.id())), r.insert(lk, V::norm(v)).map(|x| (lk, x)));
+                if K::IDENT && expect_stored.is_none() {
+                    // the key that was stored comes back, the entry's own key takes its place
+                    vcheck_eq!("occ.replace_entry returns the key that was stored (object)", Some(k.obj()), pre_obj);
+                    expect_stored = Some(entry_obj);
+                }
                 harness(|| drop((k, old)));
                 St::Done
             }
             (St::O(o), O_REPLACE_KEY) => {
                 let k = o.replace_key();
                 vcheck_eq!("occ.replace_key", k.id(), lk);
+                if K::IDENT && expect_stored.is_none() {
+                    vcheck_eq!("occ.replace_key returns the key that was stored (object)", Some(k.obj()), pre_obj);
+                    expect_stored = Some(entry_obj);
+                }
                 harness(|| drop(k));
                 St::Done
             }
@@ -782,5 +798,11 @@ fn run_entry_chain_inner<K: El, V: El>(m: &mut M<K, V>, r: &mut BTreeMap<u32, u3
         };
     }
     drop(st);
+    if let Some(want) = expect_stored {
+        let now = m.iter().find(|(k, _)| k.id() == lk).map(|(k, _)| k.obj());
+        if now != Some(want) {
+            vbail!("mismatch", "after replace_key / replace_entry the stored key object is {:?}, expected the entry's own key ({})", now, want);
+        }
+    }
     Ok(obs)
 }
